@@ -143,11 +143,20 @@ def rule_c14_r3(model: Model) -> RuleResult:
     cfg = cfg_of(model, f)
     nz = Normalizer(model, f, cfg, param_map=_pm(f))
     r.analysed.add(f.qualname)
+    # the record: the local stored under PANE_SET_FIELDS on the ordinary (non from-dict) path
+    rec_names: t.Set[str] = set()
+    for n in cfg.live_nodes():
+        for root in node_exprs(n):
+            for c in walk_no_nested(root):
+                if isinstance(c, ast.Call) and unparse(c.func) == 'object.__setattr__' and len(c.args) == 3 \
+                        and nz.expr(c.args[1], n) == "'__pane_set__'" and isinstance(c.args[2], ast.Name):
+                    rec_names.add(c.args[2].id)
     adds = []
     for n in cfg.live_nodes():
         for root in node_exprs(n):
             for c in walk_no_nested(root):
-                if isinstance(c, ast.Call) and isinstance(c.func, ast.Attribute) and c.func.attr == 'add' and unparse(c.func.value) == 'set_fields':
+                if isinstance(c, ast.Call) and isinstance(c.func, ast.Attribute) and c.func.attr == 'add' and isinstance(c.func.value, ast.Name) \
+                        and c.func.value.id in rec_names:
                     adds.append((n, c))
     r.instances += 1
     if not adds:
